@@ -534,7 +534,7 @@ fn spelling_matrix(ctx: &mut Ctx) -> Vec<Attack> {
 /// key binding over LONG presentations (a large visible claim, large disclosures, many disclosures): the KB-JWT made for one
 /// disclosure list replayed with one more / one fewer / reordered / altered at the very end. Judged on the implementation alone
 fn long_presentations(ctx: &mut Ctx) {
-    let sizes: Vec<(usize, usize, usize)> = if ctx.tier == Tier::Quick { vec![(70_000, 40, 3), (10, 70_000, 3), (10, 30, 2500), (300_000, 300_000, 5)] } else { vec![(70_000, 40, 3), (10, 70_000, 3), (10, 30, 2500), (300_000, 300_000, 5), (66_000, 10, 1), (2_000_000, 10, 4), (10, 10, 20_000)] };
+    let sizes: Vec<(usize, usize, usize)> = if ctx.tier == Tier::Quick { vec![(70_000, 40, 3), (10, 70_000, 3), (10, 30, 2500), (10, 10, 9000), (300_000, 300_000, 5)] } else { vec![(70_000, 40, 3), (10, 70_000, 3), (10, 30, 2500), (300_000, 300_000, 5), (66_000, 10, 1), (2_000_000, 10, 4), (10, 10, 20_000), (10, 10, 70_000)] };
     for (si, (visible_len, value_len, n_disc)) in sizes.into_iter().enumerate() {
         let fmt = if si % 2 == 0 { Fmt::Compact } else { Fmt::Json };
         let holder = if si % 2 == 0 { KeyId::HolderEc } else { KeyId::HolderEd };
